@@ -34,7 +34,7 @@ def sections_of(getall):
     return res
 
 def gen(rng, tier):
-    n = 1500 if tier == "quick" else 20000
+    n = 1500 if tier == "quick" else 50000
     pre = []
     for _ in range(n):
         d = rng.choice([61, 58, 32]); c = rng.choice([35, 59])
